@@ -53,7 +53,7 @@ ANCHORS = ['pfhedge.stochastic.brownian:generate_brownian',
            'pfhedge.stochastic.engine:RandnSobolBoxMuller.__call__',
            'pfhedge.nn.functional:box_muller']
 DECIDING = ["pathwise.brownian", "pathwise.geometric", "pathwise.jump_zero_intensity", "law.moments", "random.antithetic", "random.sobol"]
-REQUIRED_BRANCHES = ["cir.psi<=1.5", "cir.psi>1.5", "cir.psi_near_switch", "kou.p_up!=0.5", "via.instrument", "via.generator", "stage2"]
+REQUIRED_BRANCHES = ["history.warmup_with_other_arguments", "cir.psi<=1.5", "cir.psi>1.5", "cir.psi_near_switch", "kou.p_up!=0.5", "via.instrument", "via.generator", "stage2"]
 
 Z = 4.5
 
@@ -346,6 +346,17 @@ def drv_law(ctx, k, rng):
             out[nm] = x.log() if tr == "log" else x
         return out
 
+    # call history must not matter: the same generator is first called with perturbed arguments (same shape) in this process, so that
+    # anything cached across calls under an incomplete key (e.g. without dt) would be stale for the judged configuration
+    for key, fac in (("dt", 2.0), ("dt", 0.5), ("sigma", 1.5), ("kappa", 2.0), ("theta", 1.5), ("eta", 0.5), ("xi", 2.0), ("lam", 0.5)):
+        if key in c and isinstance(c[key], float) and c[key] > 0:
+            c2 = dict(c)
+            c2[key] = c[key] * fac
+            try:
+                build(model, c2, via, dtype)[0](4)
+                ctx.branch("history.warmup_with_other_arguments")
+            except Exception:
+                pass
     moms = run_stats(draw2, names, idx, n1, batch)
     mon = "law.moments"
     horizon = (T - 1) * dt
